@@ -16,14 +16,17 @@ import sys
 ROOT = os.path.dirname(os.path.dirname(os.path.abspath(__file__)))
 
 RT = {"i": "i64", "p": "(i64, i64)", "kp": "(i64, (i64, i64))", "vi": "Vec<i64>",
-      "pv": "(i64, Vec<i64>)", "u": "()"}
+      "pv": "(i64, Vec<i64>)", "u": "()", "mx": "v::MaxU", "kmx": "(i64, v::MaxU)", "kmn": "(i64, v::MinU)",
+      "ss": "v::SingleI", "set": "v::SetI"}
 
 # ---------------------------------------------------------------------------------------------
 # vocabulary: name -> (input type, output type).  Same names in DfirTick.tla and vocab.rs
 # ---------------------------------------------------------------------------------------------
 MAPS = {"inc": ("i", "i"), "dbl": ("i", "i"), "mod3": ("i", "i"), "key_mod2": ("i", "p"),
         "key_mod3": ("i", "p"), "pair_self": ("i", "p"), "fst": ("p", "i"), "snd": ("p", "i"),
-        "swap": ("p", "p"), "sum_pair": ("p", "i"), "val_inc": ("p", "p"), "join_sum": ("kp", "p"), "join_right": ("kp", "i"), "mul10": ("i", "i")}
+        "swap": ("p", "p"), "sum_pair": ("p", "i"), "val_inc": ("p", "p"), "join_sum": ("kp", "p"), "join_right": ("kp", "i"), "mul10": ("i", "i"),
+        # lattice wrappers (Max<u64> / Min<u64>): identities in the model
+        "to_max": ("i", "mx"), "from_max": ("mx", "i"), "kv_to_max": ("p", "kmx"), "kv_to_min": ("p", "kmn")}
 PREDS = {"is_even": "i", "lt3": "i", "lt6": "i", "gt1": "i", "key_even": "p", "val_lt3": "p", "lt100": "i"}
 RANDOM_PREDS = ["is_even", "lt3", "lt6", "gt1", "key_even", "val_lt3"]
 RANDOM_MAPS = ["inc", "dbl", "mod3", "key_mod2", "key_mod3", "pair_self", "fst", "snd", "swap", "sum_pair", "val_inc", "join_sum", "join_right"]
@@ -54,6 +57,8 @@ class Node:
         self.inports = None     # rust input port names for multi-input ops
         self.outports = None    # rust output port names for multi-output ops
         self.post = ""          # text appended after the operator (e.g. -> map(v::enum_fix))
+        self.portpost = None    # per output port: text appended to every use of that port
+        self.pin_inputs = False  # multi-input: put a typed identity in front of every input port
 
     def desc(self):
         return {"op": self.op, "fn": self.fn, "pers": self.pers,
@@ -318,6 +323,127 @@ class Prog:
         self.nodes[-1].outports = ["0", "1"]
         return (r[0], 1), (r[0], 2)
 
+    # -- operators added in the second round ------------------------------------------------
+    def state(self, s, pers="tick"):
+        """state::<'p, Max<u64>>(): [items] = inputs that raised the maximum, [state] = the maximum"""
+        self.need(s, "i")
+        r = self._add("state", [s], ["i", "i"], [self.od(s), True],
+                      "map(v::to_max) -> state::<'%s, v::MaxU>()" % pers, fn="max", pers=[pers])
+        n = self.nodes[-1]
+        n.outports = ["items", "state"]
+        n.portpost = [" -> map(v::from_max)", " -> map(v::from_max)"]
+        return (r[0], 1), (r[0], 2)
+
+    def state_by(self, s, pers="tick"):
+        """state_by::<'p, SetUnionHashSet<i64>>: [items] = first occurrences, [state] = the set (sorted Vec)"""
+        self.need(s, "i")
+        r = self._add("state_by", [s], ["i", "vi"], [self.od(s), True],
+                      "state_by::<'%s, v::SetI>(v::single, ::std::default::Default::default)" % pers, pers=[pers])
+        n = self.nodes[-1]
+        n.outports = ["items", "state"]
+        n.portpost = ["", " -> map(v::set_sorted)"]
+        return (r[0], 1), (r[0], 2)
+
+    def state_set(self, s, pers="static"):
+        """state::<'p, SetUnionHashSet<i64>>() kept in lattice form (feeds lattice_bimorphism): [items] are
+        singleton sets, [state] the accumulated set; modelled like state_by"""
+        self.need(s, "i")
+        r = self._add("state_by", [s], ["ss", "set"], [self.od(s), True],
+                      "map(v::single) -> state::<'%s, v::SetI>()" % pers, pers=[pers])
+        self.nodes[-1].outports = ["items", "state"]
+        self.tags.add("state|%s" % pers)
+        return (r[0], 1), (r[0], 2)
+
+    def lattice_bimorphism(self, dl, dr, cl, cr):
+        """cartesian product bimorphism over set-union lattices: (delta_l x R) u (L x delta_r), one set per tick"""
+        self.need(dl, "ss")
+        self.need(dr, "ss")
+        txt = ("lattice_bimorphism(dfir_rs::lattices::set_union::CartesianProductBimorphism::<::std::collections::HashSet<_>>::default(), "
+               "#n%d, #n%d)" % (cl[0], cr[0]))
+        r = self._add("lattice_bimorphism", [dl, dr], ["p"], [True], txt, refs=[cl[0], cr[0]])
+        n = self.nodes[-1]
+        n.inports = ["0", "1"]
+        n.post = " -> flat_map(v::pairs_sorted)"
+        return r
+
+    def resolve_futures(self, s, op="resolve_futures"):
+        self.need(s, "i")
+        oo = self.od(s) if op.endswith("ordered") else False
+        return self._add(op, [s], ["i"], [oo], "map(v::ready_fut) -> %s()" % op)
+
+    def zip_longest(self, a, b):
+        self.need(a, "i")
+        self.need(b, "i")
+        if not (self.od(a) and self.od(b)):
+            raise GenError("zip_longest on unordered")
+        r = self._bin("zip_longest", a, b, "kp", True, ("tick",), ["0", "1"])
+        self.nodes[-1].post = " -> map(v::eob)"
+        return r
+
+    def demux_enum(self, s):
+        self.need(s, "i")
+        o = self.od(s)
+        r = self._add("demux_enum", [s], ["i", "i"], [o, o], "map(v::classify) -> demux_enum::<v::Cls>()", fn="is_even")
+        n = self.nodes[-1]
+        n.outports = ["Even", "Odd"]
+        n.portpost = [" -> map(v::untup)", " -> map(v::untup)"]
+        return (r[0], 1), (r[0], 2)
+
+    def join_fused(self, a, b, pers=("tick", "tick")):
+        """join_fused(Reduce max, Fold sum)"""
+        self.need(a, "p")
+        self.need(b, "p")
+        r = self._bin("join_fused", a, b, "kp", False, pers, ["0", "1"],
+                      extra="dfir_rs::dfir_pipes::pull::Reduce::new(v::max_red), dfir_rs::dfir_pipes::pull::Fold::new(v::sum_init, v::sum_acc)")
+        self.nodes[-1].k = 1
+        self.nodes[-1].pin_inputs = True     # (key type inference fails behind some handoffs)
+        return r
+
+    def join_fused_side(self, a, b, pers=("tick", "tick"), side="lhs", fn="sum"):
+        """join_fused_lhs / join_fused_rhs (Reduce fn on the fused side).  `pers` is given BY PORT; the
+        operator's first persistence argument belongs to the FUSED side (vouched for by
+        dfir_rs/tests/surface_join_fused.rs static_tick_lhs_streaming_rhs_blocking)"""
+        self.need(a, "p")
+        self.need(b, "p")
+        op = "join_fused_" + side
+        text_pers = pers if side == "lhs" else (pers[1], pers[0])
+        stream = b if side == "lhs" else a
+        r = self._add(op, [a, b], ["kp"], [self.od(stream)],
+                      "%s%s(dfir_rs::dfir_pipes::pull::Reduce::new(v::%s_red))" % (op, pers_txt(text_pers), fn),
+                      fn=fn, pers=list(pers))
+        self.nodes[-1].inports = ["0", "1"]
+        self.nodes[-1].pin_inputs = True
+        return r
+
+    def join_multiset_half(self, build, probe, pers=("tick", "tick")):
+        self.need(build, "p")
+        self.need(probe, "p")
+        return self._bin("join_multiset_half", build, probe, "kp", self.od(build) and self.od(probe), pers,
+                         ["build", "probe"])
+
+    def lattice_fold_batch(self, inp, sig):
+        self.need(inp, "mx")
+        r = self._bin("lattice_fold_batch", inp, sig, "i", True, (), ["input", "signal"])
+        self.nodes[-1].rust = "_lattice_fold_batch::<v::MaxU>()"
+        self.tags.add("_lattice_fold_batch|-")
+        self.nodes[-1].post = " -> map(v::from_max)"
+        return r
+
+    def lattice_join_fused_join(self, a, b, pers=("tick", "tick")):
+        """_lattice_join_fused_join::<'a, 'b, Min<u64>, Max<u64>>()"""
+        self.need(a, "kmn")
+        self.need(b, "kmx")
+        r = self._bin("join_fused", a, b, "kp", False, pers, ["0", "1"])
+        n = self.nodes[-1]
+        n.k = 2
+        n.pin_inputs = True
+        n.rust = "_lattice_join_fused_join::<%s, v::MinU, v::MaxU>()" % ", ".join("'" + q for q in pers)
+        n.post = (" -> map(|m| { let dfir_rs::lattices::collections::SingletonMap(k, (a, b)) = "
+                  "dfir_rs::lattices::DeepReveal::deep_reveal(m); (k, (a as i64, b as i64)) })")
+        self.tags.add("_lattice_join_fused_join|%s" % "/".join(pers))
+        self.tags.discard("join_fused|%s" % "/".join(pers))
+        return r
+
     # -- delayed
     def defer(self, ty, lazy=False, ordered=True):
         """placeholder first (so that consumers may precede the producer), bind with defer_bind"""
@@ -474,7 +600,7 @@ class Prog:
         def outname(s):
             n = self.nodes[s[0] - 1]
             if n.outports:
-                if len(cons.get(tuple(s), [])) > 1:
+                if len(cons.get(tuple(s), [])) > 1 or n.portpost:
                     return "n%dp%d" % s
                 return "n%d[%s]" % (s[0], n.outports[s[1] - 1])
             return "n%d" % s[0]
@@ -529,11 +655,15 @@ class Prog:
             else:
                 lines[lp].append("%s = %s%s;" % (name, n.rust, tail))
                 for i, s in enumerate(n.ins):
-                    lines[lp].append("%s -> [%s]%s;" % (edge_src(s, n.idx, i, lp), n.inports[i], name))
+                    pin = " -> identity::<%s>()" % RT[self.ty(s)] if n.pin_inputs else ""
+                    lines[lp].append("%s%s -> [%s]%s;" % (edge_src(s, n.idx, i, lp), pin, n.inports[i], name))
             if n.outports:
                 for p in range(1, len(n.otypes) + 1):
-                    if len(cons.get((n.idx, p), [])) > 1:
-                        lines[lp].append("n%dp%d = n%d[%s] -> tee();" % (n.idx, p, n.idx, n.outports[p - 1]))
+                    many = len(cons.get((n.idx, p), [])) > 1
+                    pp = n.portpost[p - 1] if n.portpost else ""
+                    if many or n.portpost:
+                        lines[lp].append("n%dp%d = n%d[%s]%s%s;" % (n.idx, p, n.idx, n.outports[p - 1], pp,
+                                                                   " -> tee()" if many else ""))
         if shuffle is not None:
             # statement order is semantically irrelevant in DFIR: permute it (C22 / C25)
             for li in lines:
@@ -779,6 +909,66 @@ def corpus():
     side("persist_sort", [lambda p, s: p.persist(s), lambda p, s: p.sort(s), lambda p, s: p.sort_by_key(s, "id")])
     side("multiset_delta", [lambda p, s: p.multiset_delta(s), lambda p, s: p.multiset_delta(p.persist(s))])
     side("flat_filter", [lambda p, s: p.filter_map(p.flat_map(p.filter(s, "gt1"), "dup"), "half_even")])
+
+    # --- second round of operators
+    def b(p):
+        a, c = p.src(), p.src()
+        for pers in ("tick", "static"):
+            it, st = p.state(a, pers)
+            p.sink(it)
+            p.sink(st)
+            it, st = p.state_by(c, pers)
+            p.sink(it)
+            p.sink(st)
+    add("state_x", "C21", b)
+
+    def b(p):
+        p.sink(p.zip_longest(p.src(), p.src()))
+        ev, od = p.demux_enum(p.src())
+        p.sink(ev)
+        p.sink(p.map(od, "inc"))
+    add("zip_longest_demux_enum", "C21", b)
+
+    ALL4 = [("tick", "tick"), ("static", "tick"), ("tick", "static"), ("static", "static")]
+
+    def b(p):
+        a, c = p.src("p"), p.src("p")
+        for pers in ALL4:
+            p.sink(p.join_fused(a, c, pers))
+    add("join_fused_x", "C21", b)
+    for side in ("lhs", "rhs"):
+        def b(p, side=side):
+            a, c = p.src("p"), p.src("p")
+            for pers in ALL4:
+                p.sink(p.join_fused_side(a, c, pers, side=side, fn="sum" if side == "lhs" else "max"))
+        add("join_fused_%s_x" % side, "C21", b)
+
+    def b(p):
+        a, c = p.src("p"), p.src("p")
+        for pers in ALL4:
+            p.sink(p.join_multiset_half(a, c, pers))
+    add("join_multiset_half_x", "C21", b)
+
+    def b(p):
+        p.sink(p.lattice_fold_batch(p.map(p.src(), "to_max"), p.src()))
+        a, c = p.src("p"), p.src("p")
+        for pers in (("tick", "tick"), ("static", "tick"), ("static", "static")):
+            p.sink(p.lattice_join_fused_join(p.map(a, "kv_to_min"), p.map(c, "kv_to_max"), pers))
+    add("lattice_batch_and_fused_join", "C21", b)
+
+    def b(p):
+        a, c = p.src(), p.src()
+        for pers in ("static", "tick"):
+            li, ls = p.state_set(a, pers)
+            ri, rs = p.state_set(c, pers)
+            p.sink(p.lattice_bimorphism(li, ri, p.cell(ls, "singleton"), p.cell(rs, "singleton")))
+    add("lattice_bimorphism_x", "C21", b)
+
+    def b(p):
+        s = p.src()
+        for op in ("resolve_futures", "resolve_futures_ordered", "resolve_futures_blocking", "resolve_futures_blocking_ordered"):
+            p.sink(p.resolve_futures(s, op))
+    add("resolve_futures_x", "C21", b)
 
     # --- C24: ticks, defer_tick, defer_tick_lazy, run_available
     def b(p):
@@ -1093,6 +1283,63 @@ def loops_corpus():
     add("loop_three_levels", b)
     return P
 
+
+# ---------------------------------------------------------------------------------------------
+# thorough-tier bulk (second generated module, cargo feature progs_x)
+# ---------------------------------------------------------------------------------------------
+def extra_corpus():
+    P = []
+
+    def side2(name, mk, combos, tys):
+        p = Prog("sides_" + name, "C21")
+        a, c = p.src(tys[0]), p.src(tys[1])
+        p.sink(a)
+        p.sink(c)
+        ga, gc = [1], [2]
+        for pers in combos:
+            p.sink(mk(p, a, c, pers))
+            kpush = len(p.sinks)
+            a2, c2 = p.src(tys[0]), p.src(tys[1])
+            ga.append(len(p.src_types) - 1)
+            gc.append(len(p.src_types))
+            r = mk(p, a2, c2, pers)
+            p.sink(p.union(r, p.source_iter([], p.ty(r))))
+            p.pairs.append([kpush, len(p.sinks)])
+        p.mirror.extend([ga, gc])
+        p.gaps = True
+        p.check()
+        P.append(p)
+    ALL4 = [("tick", "tick"), ("static", "tick"), ("tick", "static"), ("static", "static")]
+    side2("zip_longest", lambda p, a, c, pers: p.zip_longest(a, c), [("tick",)], ("i", "i"))
+    side2("join_fused", lambda p, a, c, pers: p.join_fused(a, c, pers), ALL4, ("p", "p"))
+    side2("join_fused_lhs", lambda p, a, c, pers: p.join_fused_side(a, c, pers, "lhs", "sum"), ALL4, ("p", "p"))
+    side2("join_fused_rhs", lambda p, a, c, pers: p.join_fused_side(a, c, pers, "rhs", "max"), ALL4, ("p", "p"))
+    side2("join_multiset_half", lambda p, a, c, pers: p.join_multiset_half(a, c, pers), ALL4, ("p", "p"))
+    side2("cross_singleton", lambda p, a, c, pers: p.cross_singleton(a, c, pers[0]), [("tick",), ("static",)], ("i", "i"))
+    side2("defer_signal", lambda p, a, c, pers: p.defer_signal(a, c), [("tick",)], ("i", "i"))
+    side2("chain_first_n", lambda p, a, c, pers: p.chain_first_n(a, c, 3), [("tick",)], ("i", "i"))
+    side2("cross_join_multiset", lambda p, a, c, pers: p.cross_join(a, c, pers, op="cross_join_multiset"), ALL4, ("i", "i"))
+    def side1(name, fs):
+        p = Prog("sides_" + name, "C21")
+        s0 = p.src()
+        p.sink(s0)
+        grp = [1]
+        for f in fs:
+            p.sink(f(p, s0))
+            kpush = len(p.sinks)
+            z = p.src()
+            grp.append(len(p.src_types))
+            r = f(p, z)
+            p.sink(p.union(r, p.source_iter([], p.ty(r))))
+            p.pairs.append([kpush, len(p.sinks)])
+        p.mirror.append(grp)
+        p.gaps = True
+        p.check()
+        P.append(p)
+    side1("resolve_futures", [lambda p, s, op=op: p.resolve_futures(s, op) for op in ("resolve_futures", "resolve_futures_ordered")])
+    side2("join_multiset_x", lambda p, a, c, pers: p.join(a, c, pers, op="join_multiset"), [("tick", "tick"), ("static", "tick")], ("p", "p"))
+    return P
+
 # ---------------------------------------------------------------------------------------------
 # calibration corpus: programs of /repo/dfir_rs/tests/surface_*.rs re-expressed, with the outputs
 # those tests assert.  expect: list of histories; history = list of steps
@@ -1299,6 +1546,54 @@ def calibration():
         p.sink(p.iter_ref(hb))
         p.sink(hb)
     add("cal_ref_iter_ref", b, [[T([[10, 20]], [10, 20], [10, 20]), T([[30]], [30], [30]), T([[]], [], [])]])
+
+    # ---- second round
+    # surface_singleton.rs test_state_tick: 'tick state over Max: tick0 3,4,5 all raise; tick1 2 raises again
+    def b(p):
+        it, st = p.state(p.src(), "tick")
+        p.sink(it)
+        p.sink(st)
+    add("cal_state_tick", b, [[T([[3, 4, 5]], [3, 4, 5], [5]), T([[2]], [2], [2]), T([[]], [], [0])]])
+
+    # surface_zip_unzip.rs test_zip_longest: 0..5 with two items -> Both, Both, Left, Left, Left
+    def b(p):
+        p.sink(p.zip_longest(p.src(), p.src()))
+    add("cal_zip_longest", b, [[T([[0, 1, 2, 3, 4], [7, 8]], [[0, [0, 7]], [0, [1, 8]], [1, [2, -1]], [1, [3, -1]], [1, [4, -1]]])]])
+
+    # ops/join_fused_lhs.rs doc example: Reduce sum on the left: ("key",(3,2)), ("key",(3,3))
+    def b(p):
+        p.sink(p.join_fused_side(p.src("p"), p.src("p"), ("tick", "tick"), "lhs", "sum"))
+    add("cal_join_fused_lhs", b, [[T([[[7, 0], [7, 1], [7, 2]], [[7, 2], [7, 3]]], [[7, [3, 2]], [7, [3, 3]]])]])
+
+    # surface_join_fused.rs static_tick_lhs_streaming_rhs_blocking: join_fused_rhs::<'static,'tick>:
+    # the fused side (port 1) is the persisted one
+    def b(p):
+        p.sink(p.join_fused_side(p.src("p"), p.src("p"), ("tick", "static"), "rhs", "max"))
+    add("cal_join_fused_rhs_static_tick", b, [[T([[[7, 0]], [[7, 1], [7, 2]]], [[7, [0, 2]]]),
+                                              T([[[7, 1]], []], [[7, [1, 2]]]), T([[[7, 2]], []], [[7, [2, 2]]])]])
+
+    # ops/join_multiset_half.rs doc example (probe order preserved)
+    def b(p):
+        p.sink(p.join_multiset_half(p.src("p"), p.src("p"), ("tick", "tick")), ordered=True)
+    add("cal_join_multiset_half", b, [[T([[[1, 10], [2, 20]], [[1, 1], [2, 2], [1, 3]]],
+                                         [[1, [1, 10]], [2, [2, 20]], [1, [3, 10]]])]])
+
+    # surface_lattice_join.rs test_lattice_join_fused_join_reducing_behavior: Min 5,6 x Max 5,6 -> (7,(5,6))
+    def b(p):
+        p.sink(p.lattice_join_fused_join(p.map(p.src("p"), "kv_to_min"), p.map(p.src("p"), "kv_to_max"), ("tick", "tick")))
+    add("cal_lattice_join_fused_join", b, [[T([[[7, 5], [7, 6]], [[7, 5], [7, 6]]], [[7, [5, 6]]])]])
+
+    # surface_lattice_bimorphism.rs test_cartesian_product: {0,1,2} x {3,4}
+    def b(p):
+        li, ls = p.state_set(p.src(), "static")
+        ri, rs = p.state_set(p.src(), "static")
+        p.sink(p.lattice_bimorphism(li, ri, p.cell(ls, "singleton"), p.cell(rs, "singleton")))
+    add("cal_lattice_bimorphism", b, [[T([[0, 1, 2], [3, 4]], [[0, 3], [0, 4], [1, 3], [1, 4], [2, 3], [2, 4]]), T([[], []], [])]])
+
+    # surface_lattice_batch.rs: holds the data across a tick, releases on signal, nothing without signal
+    def b(p):
+        p.sink(p.lattice_fold_batch(p.map(p.src(), "to_max"), p.src()))
+    add("cal_lattice_fold_batch", b, [[T([[0, 1], []], []), T([[], [9]], [1]), T([[2], []], []), T([[], []], [])]])
     return P
 
 
@@ -1358,7 +1653,8 @@ RANDOM_OPS = ["map", "map", "filter", "flat_map", "filter_map", "fold", "fold_no
               "reduce_no_replay", "fold_keyed", "reduce_keyed", "join", "join_multiset", "cross_join",
               "cross_join_multiset", "anti_join", "difference", "unique", "persist", "multiset_delta",
               "sort", "sort_by_key", "enumerate", "zip", "scan", "union", "chain", "partition", "unzip",
-              "defer_tick", "defer_tick_lazy", "cross_singleton", "defer_signal", "identity", "handoff"]
+              "defer_tick", "defer_tick_lazy", "cross_singleton", "defer_signal", "identity", "handoff",
+              "state", "zip_longest", "demux_enum", "join_fused", "join_multiset_half", "chain_first_n"]
 BLOCKING_OPS = ["fold", "reduce", "sort", "anti_join", "difference", "join", "persist", "fold_keyed",
                 "cross_singleton", "zip", "fold_no_replay", "reduce_no_replay", "sort_by_key", "defer_signal"]
 
@@ -1454,6 +1750,10 @@ def apply_random_op(p, rng, op, pool):
         a = pick(rng, pool, p, "i", "p")
         b = pick(rng, pool, p, p.ty(a))
         return [a, b], [p.chain(a, b)]
+    if op == "chain_first_n":
+        a = pick(rng, pool, p, "i", "p", ordered=True)
+        b = pick(rng, pool, p, p.ty(a), ordered=True)
+        return [a, b], [p.chain_first_n(a, b, rng.randrange(1, 5))]
     if op == "partition":
         s = pick(rng, pool, p, "i", "p")
         fns = [f for f in RANDOM_PREDS if PREDS[f] == p.ty(s)]
@@ -1476,6 +1776,25 @@ def apply_random_op(p, rng, op, pool):
         a = pick(rng, pool, p, "i", "p")
         b = pick(rng, pool, p, "i", "p")
         return [a, b], [p.defer_signal(a, b)]
+    if op == "state":
+        s = pick(rng, pool, p, "i")
+        a, b = p.state(s, rp(rng)) if rng.random() < 0.5 else p.state_by(s, rp(rng))
+        return [s], [a, b]
+    if op == "zip_longest":
+        a, b = pick(rng, pool, p, "i", ordered=True), pick(rng, pool, p, "i", ordered=True)
+        return [a, b], [p.zip_longest(a, b)]
+    if op == "demux_enum":
+        s = pick(rng, pool, p, "i")
+        a, b = p.demux_enum(s)
+        return [s], [a, b]
+    if op == "join_fused":
+        a, b = pick(rng, pool, p, "p"), pick(rng, pool, p, "p")
+        k = rng.randrange(3)
+        r = p.join_fused(a, b, P2()) if k == 0 else p.join_fused_side(a, b, P2(), "lhs" if k == 1 else "rhs", rng.choice(REDS))
+        return [a, b], [r]
+    if op == "join_multiset_half":
+        a, b = pick(rng, pool, p, "p"), pick(rng, pool, p, "p")
+        return [a, b], [p.join_multiset_half(a, b, P2())]
     if op in ("identity", "handoff"):
         s = pick(rng, pool, p, "i", "p")
         if op == "handoff" and p.nodes[s[0] - 1].op in ("handoff", "singleton", "optional"):
@@ -1491,7 +1810,9 @@ STATEFUL = {"fold", "fold_no_replay", "reduce", "reduce_no_replay", "fold_keyed"
             "persist", "multiset_delta", "sort", "sort_by_key", "enumerate", "scan", "join", "join_multiset",
             "cross_join", "cross_join_multiset", "anti_join", "difference", "zip", "partition", "unzip",
             "map", "filter", "flat_map", "filter_map", "flatten", "cross_singleton", "defer_signal", "union",
-            "chain", "chain_first_n"}
+            "chain", "chain_first_n", "state", "state_by", "zip_longest", "demux_enum", "join_fused",
+            "join_fused_lhs", "join_fused_rhs", "join_multiset_half", "lattice_fold_batch", "resolve_futures",
+            "resolve_futures_ordered", "lattice_bimorphism"}
 
 
 def edges(p):
@@ -1593,10 +1914,13 @@ def build_all(seed, tier):
     progs = []      # entries: dict(id, name, prop, base, variant, prog, deco)
     hists = {}
 
+    extra_mode = [False]
+
     def register(p, variant="", deco=None, base=None, shuffle=None):
         pid = len(progs) + 1
         progs.append({"id": pid, "name": p.name + ("__" + variant if variant else ""), "prop": p.prop,
-                      "base": base or pid, "variant": variant, "prog": p, "deco": deco, "shuffle": shuffle})
+                      "base": base or pid, "variant": variant, "prog": p, "deco": deco, "shuffle": shuffle,
+                      "extra": extra_mode[0]})
         return pid
 
     nrand = dict(c21=6, c22=8, c23=10, c24=5)
@@ -1668,6 +1992,43 @@ def build_all(seed, tier):
             if d:
                 pid = register(e["prog"], variant="split", deco=d, base=e["id"])
                 hists[pid] = hists[e["id"]]
+
+    # ---- thorough-tier bulk: registered AFTER every quick program (ids of the quick set are stable);
+    # own RNG streams so that the quick set does not depend on it
+    extra_mode[0] = True
+    xr = random.Random(seed * 31337 + 7)
+    xh = random.Random(seed * 15485863 + (1 if tier == "thorough" else 0))
+    xprogs = list(extra_corpus())
+    for i in range(14):
+        xprogs.append(random_prog(xr, "xrand%02d" % i, "C21", xr.randrange(4, 9)))
+    for i in range(6):
+        xprogs.append(random_prog(xr, "xtick%02d" % i, "C24", xr.randrange(4, 8), want=["defer_tick", "defer_tick_lazy"]))
+    for p in xprogs:
+        pid = register(p)
+        hists[pid] = [history(xh, p, xh.randrange(*HL), 0.4 if p.prop == "C24" else 0.15) for _ in range(NH)]
+    for i in range(8):
+        p = random_prog(xr, "xdeep%02d" % i, "C23", xr.randrange(6, 11), want=BLOCKING_OPS)
+        d = {}
+        for e in edges(p):
+            if p.nodes[e[2] - 1].op in BLOCKING_OPS:
+                ks = []
+                for _ in range(xr.randrange(1, 5)):
+                    k = xr.choice(["identity", "map_id", "handoff", "union_empty", "tee_null"])
+                    if deco_ok(p, e, k) and not (k == "handoff" and ks and ks[-1] == "handoff"):
+                        ks.append(k)
+                if ks:
+                    d[e] = ks
+        pid = register(p, deco=d)
+        hists[pid] = [history(xh, p, xh.randrange(*HL), 0.1) for _ in range(NH)]
+    xc = [e for e in progs if e["extra"] and e["prop"] == "C21" and not e["variant"] and not e["prog"].pairs]
+    xr.shuffle(xc)
+    for e in xc[:8]:
+        vs = variants(e["prog"], xr)
+        xr.shuffle(vs)
+        for (vn, d) in vs[:2]:
+            pid = register(e["prog"], variant=vn, deco=d, base=e["id"])
+            progs[-1]["prop"] = "C22"
+            hists[pid] = hists[e["id"]]
     return progs, hists
 
 
@@ -1705,51 +2066,58 @@ def main():
             i += 1
     os.makedirs(outdir, exist_ok=True)
     progs, hists = build_all(seed, tier)
-    src = [HEADER % seed]
-    table = []
     meta = []
     broke = []
-    for e in progs:
-        if e["id"] in exclude:      # rejected by dfir_lang (reported by the driver): keep the crate buildable
-            continue
-        fname = "p%03d" % e["id"]
-        src.append("// %s [%s]%s" % (e["name"], e["prop"], " variant of p%03d" % e["base"] if e["variant"] else ""))
-        sh = (lambda: random.Random(e["shuffle"])) if e["shuffle"] is not None else (lambda: None)
-        src.append(e["prog"].rust_fn(fname, e["deco"], sh()))
-        src.append("")
-        table.append("        %d => %s(steps, out)," % (e["id"], fname))
-        body = e["prog"].rust_body(e["deco"], sh())
-        if os.environ.get("DFIRTICK_SELFTEST_BREAK_VARIANT") and e["variant"] and not broke:
-            # self-test of the driver's compile-verdict path: one variant becomes illegal for dfir_lang
-            body += "\n        no_such_name -> null();"
-            broke.append(e["id"])
-        tags = set(e["prog"].tags)
-        for opn in ("tee", "null", "handoff", "identity"):
-            if "%s()" % opn in body:
-                tags.add(opn + "|-")
-        meta.append({"id": e["id"], "name": e["name"], "prop": e["prop"], "base": e["base"],
-                     "variant": e["variant"], "desc": e["prog"].desc(), "tags": sorted(tags),
-                     "avail_ok": e["prog"].avail_term, "calibration": e["prog"].expect is not None,
-                     "text": body})
-    src.append("pub fn run(id: u32, steps: &Value, out: &mut Trace) -> bool {")
-    src.append("    match id {")
-    src.extend(table)
-    src.append("        _ => return false,")
-    src.append("    }")
-    src.append("    true")
-    src.append("}")
-    src.append("pub const N_PROGS: u32 = %d;" % len(progs))
-    text = "\n".join(src) + "\n"
-    target = os.path.join(ROOT, "harness", "hv_dfir", "src", "gen_progs.rs")
-    old = open(target).read() if os.path.exists(target) else None
-    if old != text:
-        with open(target, "w") as f:
-            f.write(text)
+    changed = False
+    for (fname_rs, want_extra) in (("gen_progs.rs", False), ("gen_progs_x.rs", True)):
+        src = [HEADER % seed]
+        table = []
+        for e in progs:
+            if e["extra"] != want_extra:
+                continue
+            if e["id"] in exclude:  # rejected by dfir_lang / rustc (reported by the driver): keep the crate buildable
+                continue
+            fname = "p%03d" % e["id"]
+            src.append("// %s [%s]%s" % (e["name"], e["prop"], " variant of p%03d" % e["base"] if e["variant"] else ""))
+            sh = (lambda: random.Random(e["shuffle"])) if e["shuffle"] is not None else (lambda: None)
+            src.append(e["prog"].rust_fn(fname, e["deco"], sh()))
+            src.append("")
+            table.append("        %d => %s(steps, out)," % (e["id"], fname))
+            if want_extra and tier != "thorough":
+                continue            # thorough-only programs are not part of the quick run
+            body = e["prog"].rust_body(e["deco"], sh())
+            if os.environ.get("DFIRTICK_SELFTEST_BREAK_VARIANT") and e["variant"] and not broke:
+                # self-test of the driver's compile-verdict path: one variant becomes illegal for dfir_lang
+                body += "\n        no_such_name -> null();"
+                broke.append(e["id"])
+            tags = set(e["prog"].tags)
+            for opn in ("tee", "null", "handoff", "identity"):
+                if "%s()" % opn in body:
+                    tags.add(opn + "|-")
+            meta.append({"id": e["id"], "name": e["name"], "prop": e["prop"], "base": e["base"],
+                         "variant": e["variant"], "desc": e["prog"].desc(), "tags": sorted(tags),
+                         "avail_ok": e["prog"].avail_term, "calibration": e["prog"].expect is not None,
+                         "extra": e["extra"], "text": body})
+        src.append("pub fn run(id: u32, steps: &Value, out: &mut Trace) -> bool {")
+        src.append("    match id {")
+        src.extend(table)
+        src.append("        _ => return false,")
+        src.append("    }")
+        src.append("    true")
+        src.append("}")
+        text = "\n".join(src) + "\n"
+        target = os.path.join(ROOT, "harness", "hv_dfir", "src", fname_rs)
+        old = open(target).read() if os.path.exists(target) else None
+        if old != text:
+            changed = True
+            with open(target, "w") as f:
+                f.write(text)
+    hists = {k: v for k, v in hists.items() if any(m["id"] == k for m in meta)}
     with open(os.path.join(outdir, "progs.json"), "w") as f:
         json.dump(meta, f)
     with open(os.path.join(outdir, "hist.json"), "w") as f:
         json.dump({str(k): v for k, v in hists.items()}, f)
-    print(json.dumps({"programs": len(progs), "changed": old != text, "seed": seed, "tier": tier}))
+    print(json.dumps({"programs": len(meta), "generated": len(progs), "changed": changed, "seed": seed, "tier": tier}))
 
 
 if __name__ == "__main__":
